@@ -12,6 +12,7 @@ import (
 type tokenReader struct {
 	tree               *tokenTree
 	r                  *bufio.Reader
+	src                *errTrackingReader
 	lastToken          token
 	nextToken          token
 	errs               []locError
@@ -24,10 +25,29 @@ func newTokenReader(r io.Reader) *tokenReader {
 	// We buffer the reader to reduce the number
 	// of actual read calls we make out to a file,
 	// and to ease reading individual bytes
+	src := &errTrackingReader{r: r}
 	return &tokenReader{
-		r:    bufio.NewReader(r),
+		r:    bufio.NewReader(src),
+		src:  src,
 		tree: newTokenTree(),
 	}
+}
+
+// errTrackingReader remembers the first failure of the underlying reader that is not
+// io.EOF. bufio.Reader reports a read error once and then forgets it, so a failure that
+// arrives where the tokenizer does not look at the error (inside a comment, while skipping
+// whitespace) would otherwise be mistaken for the end of the input.
+type errTrackingReader struct {
+	r   io.Reader
+	err error
+}
+
+func (e *errTrackingReader) Read(p []byte) (int, error) {
+	n, err := e.r.Read(p)
+	if err != nil && err != io.EOF && e.err == nil {
+		e.err = err
+	}
+	return n, err
 }
 
 // UnNext tells the next Next call to not update the returned token
@@ -66,6 +86,9 @@ func (tr *tokenReader) addError(err error) {
 
 func (tr *tokenReader) Err() error {
 	if len(tr.errs) == 0 {
+		if tr.src != nil && tr.src.err != nil {
+			return tr.src.err
+		}
 		return nil
 	}
 	errStrs := []string{}
